@@ -10,7 +10,7 @@ import Goyang.Lemmas.IncludeAugRows
 import Goyang.Lemmas.IncludeAugIO
 import Goyang.Lemmas.IncludeAugDec
 import Goyang.Lemmas.IncludeAugShape
-import Goyang.Lemmas.IncludeAugSim
+import Goyang.Lemmas.IncludeAugSim3
 /-
 C13, third sentence — "An included submodule contributes its data nodes, typedefs, groupings and
 identities to the including module exactly as if they were written there."
@@ -115,8 +115,20 @@ Sets WITH augment statements:
     Lemmas/IncludeAugDec.lean), from which the conclusion is obtained through the proved chain;
     `include_eq_inline_augments_norpc_checked`: the same with the core as a decidable hypothesis
     (`Lemmas.IncludeAugDec.CoreCheck`), so that every hypothesis but `IsSplitOf` is decidable.
-  Still missing for `IncludeEqInlineAugments`, i.e. for `LoopsRelatedCore` (+ `SameIO` for sets with rpc / action
-  nodes): (A) the pending ENTRIES of the owner's
+  - (S) for sets without rpc / action nodes — CLOSED: `Lemmas.IncludeAugSim.augmentLoop_rel` — the two augment loops
+    (split set over `R'`, unsplit set over `R`), run with the same fuel over the same module array, keep the states
+    related (`SR`: every other module's tree equal up to `ren σ`, the owner's tree `SameTop σ` the unsplit module's,
+    the pending entries of every module equal up to `ren σ`, nothing pending for the submodules' trees, which stay
+    error free); built from `findTree_split` (the tree `Find` moves to is the same for both registries and never a
+    submodule's), `find_rel`, `sameTop_mergeAt` / `ren_mergeAt` (the update at the target), `augStep_rel`,
+    `augmentTree_rel`, `augmentPass_rel`; `loopsRelatedCore_of_start` / `loopsRelatedCore_norpc`: `LoopsRelatedCore`
+    from the relation of the two starting states, which `include_conversion` gives but for the pending entries.
+  - **`include_eq_inline_augments_norpc`** — `IncludeEqInlineAugments` PROVED for split sets without rpc / action nodes
+    with piece (A) as the decidable hypothesis `Lemmas.IncludeAugSim.PendRel` (pending augment entries of every module
+    equal up to `ren σ`, rows present alike) — besides `IsSplitOf`: `LoadedShape` / `AugPosDistinct` / `AugArgsPlain` of
+    `R'`, `NoIOStart` of both converted sets, `AllConverted R` (every module has a tree after conversion) and equal loop
+    fuel, all decidable and kernel-evaluated on `Ex4` WITHOUT running a loop.
+  Still missing for `IncludeEqInlineAugments` in general: (A) `PendRel` as a theorem — the pending ENTRIES of the owner's
   row equal the unsplit module's up to `ren σ` (`context_independence` gives it per statement once the state
   at the call is known coherent; the module-level conversion proofs `IncludeMod.mod_conv` /
   `IncludeModN.part_conv_aux` call `fields_rel` with a state relation `RSm` that ignores `TState.augs` — the
@@ -129,19 +141,15 @@ Sets WITH augment statements:
   submodules' conversions (`(sb.seq, [])`) have to be added to them — i.e. the induction `part_conv` has to be
   restated, not only its last step) and the assembly over the conversion order (`conv_unsplit`, `conv_split_mods`
   with a row clause in `UInv` / `SInv`; `pendingOf` takes the FIRST row with the key, so "each module files one
-  row" is part of it)); (S) the lockstep simulation of the two loops in the SAME module order on
-  forests related by `ren σ` / `SameTop` (`find` through `child?_sameTop`, `merge`/`updateAt` under `ren`; the
-  split forest has the additional submodule trees and the other registry: `find` resolves prefixes through
-  `byId` / `findModuleByPrefix` / `owner` of the registry, which have to be related for `R` and `R'`; C05's
-  `LoadOrderAug.augment*_rel` needs an injective renaming and `Forest.ren` equality and does not apply — `σ` maps the
-  submodules' numbers to the owner's; groundwork proved in Lemmas/IncludeAugSim.lean: `ren_eq` — the include layer's `ren σ`
-  IS C05's `Entry.ren σ`, so C05's `walkParts_ren` / `updateAt_ren` / `getAt_ren` / `ren_merge`, which need no injectivity,
-  apply to the other modules' trees — and `walkParts_path_sameTop` — on trees without rpc / action nodes `Find`'s step
-  loop reaches the same location in the owner's tree as in the unsplit module's, from any start); (I, second half) `SameIO` of the two runs over the split set for sets WITH rpc /
-  action nodes (every pending augment is retried in the last, unproductive pass, so both runs create the same inputs /
-  outputs — not proved).  (E) is closed; (I) is closed but for that.  Also not done: `NoIOStart` from a condition on the
-  STATEMENTS (no rpc / action / input / output statement in the set): the closure schemes `Closed` / `ClosedT` give no
-  call-site information in their `setInp` / `setOut` clauses, a dedicated induction over `toEntry` would be needed.
+  row" is part of it); note `REb σ` relates entries only where error free, `PendRel` asks equality: the entries of a
+  clean conversion are error free only if their errors are collected into `forestErrs` — to be checked); the small
+  side conditions `AllConverted R` and `loopFuel R' = loopFuel R` (true of loaded sets; the second is a sum over the rows
+  once `PendRel` holds); (S) and (I, second half: `SameIO` of the two runs) for sets WITH rpc / action nodes — the
+  simulation `augmentLoop_rel` uses that `Find` changes nothing on trees without rpc nodes (`walkParts_noIO`); with rpc
+  nodes the lazily created inputs / outputs have to be carried through it.  (E) is closed; (I) is closed but for that.
+  Also not done: `NoIOStart` from a condition on the STATEMENTS (no rpc / action / input / output statement in the set):
+  the closure schemes `Closed` / `ClosedT` give no call-site information in their `setInp` / `setOut` clauses, a
+  dedicated induction over `toEntry` would be needed.
   For sets WITH augments left for the stage after FixChoice the same pieces are needed for every
   retry round (each round is the same loop, `Lemmas/Rounds.lean`); `fixChoice` under `SameTop` is
   `Lemmas.IncludeMain.sameTop_fixChoice`, under the path view `fixChoice_path_view`.
@@ -199,15 +207,18 @@ statements), `include_eq_inline_partial` + `include_paths` (the same sets; `R` w
 `include_eq_inline_witness`, `dump_of_path_view` / `dump_of_view` (E), `fixChoice_path_view` (F),
 `include_dump_in_unsplit_order`, `include_clean_in_unsplit_order`, `include_dump_of_related_trees`,
 `include_eq_inline_augments_reduced`, `include_io_shape_along_loop` (I, first half, all sets), `include_no_rpc_along_loop`,
-`include_eq_inline_augments_norpc_reduced`, `include_eq_inline_augments_norpc_checked`, `include_eq_inline_augments_reduced_sameIO`.
+`include_eq_inline_augments_norpc_reduced`, `include_eq_inline_augments_norpc_checked`, `include_eq_inline_augments_reduced_sameIO`,
+and `include_eq_inline_augments_norpc` (the statement itself for sets without rpc / action nodes, piece (A) as the decidable
+hypothesis `PendRel`).
 The statement with the hypotheses under which those results apply is `IncludeEqInlineAugments`.  What is
 missing for it: (1) the augment loop
 visits the trees in an order that the additional (augment-free) submodule trees change (swap-remove
 over the module array), so children grafted by different modules into one node can arrive in another
 order — CLOSED on the flat view by `include_augment_loop_order` (C07's order independence); what remains
-is (A) the pending entries of the owner's row equal the unsplit module's up to `ren σ`, (S) the lockstep
-simulation of the two loops in the same module order on forests related by `ren σ` / `SameTop` (targets go
-through `Entry.Find` by name, insensitive to the order: `child?_sameTop`), (I) `SameIO` of the two runs for sets with
+is (A) the pending entries of the owner's row equal the unsplit module's up to `ren σ` (OPEN; a decidable hypothesis of
+`include_eq_inline_augments_norpc`), (S) the lockstep
+simulation of the two loops in the same module order on forests related by `ren σ` / `SameTop` (CLOSED for sets
+without rpc / action nodes, `Lemmas.IncludeAugSim.augmentLoop_rel`), (I) `SameIO` of the two runs for sets with
 rpc / action nodes (`IOShape` along the pipeline: CLOSED, `include_io_shape_along_loop`; sets without rpc / action nodes:
 CLOSED, `include_no_rpc_along_loop`) ((E) the canonical dump as a function of the view: CLOSED, `dump_of_view`; the whole
 composition from (A) + (S) + (I): `include_eq_inline_augments_reduced`); (3) nested includes among the parts ARE covered
@@ -1628,5 +1639,45 @@ example : IncludeEqInlineAugments Ex4.sp Ex4.R Ex4.R' {} Ex.plug Ex.plug := by
     decide +kernel
   exact include_eq_inline_augments_norpc_checked Ex4.sp Ex4.R Ex4.R' {} Ex.plug Ex.plug Ex4.isSplit (by decide +kernel)
     (by decide +kernel) Ex4E.argsPlain (by decide +kernel) hc
+
+/-! ### the statement for sets without rpc / action nodes, piece (A) as a decidable condition -/
+
+/-- **include_eq_inline_augments_norpc.**  `IncludeEqInlineAugments` — a clean `Process` of the unsplit set implies a
+clean `Process` of the split set and equal canonical dumps of the split module, for sets whose augment loop leaves
+nothing pending and without deviation statements — PROVED for split sets without rpc / action nodes, with piece (A) as
+a decidable condition on the two converted sets: `PendRel` — for every module, the pending augment entries of the
+unsplit set are those of the split set up to `ren σ` (what `context_independence` gives per statement; proved for
+every module but the owner at the level of the conversion, `Lemmas.IncludeAugRows.mod_conv_rows`, not yet assembled).
+The other hypotheses are decidable too (all but `IsSplitOf`, which has executable conditions of its own):
+`LoadedShape` / `AugPosDistinct` / `AugArgsPlain` of the split registry (C07's input predicates), `NoIOStart` of both
+converted sets (no rpc / action node, no input / output entry), `AllConverted` (every module of the unsplit set has a
+tree), equal loop fuel.  Pieces (S) — the lockstep simulation of the two augment loops in the same module order on
+forests related by `ren σ` / `SameTop` (`Lemmas.IncludeAugSim.augmentLoop_rel`, `loopsRelatedCore_of_start`) — and (I)
+are proved; with (E), (F), C07's order independence and the later stages the chain is complete. -/
+theorem include_eq_inline_augments_norpc (s : Split) (R R' : Registry) (opts : Opts) (plug plug' : Plug)
+    (h : IsSplitOf s R R' plug plug') (hL : Lemmas.Fuel.LoadedShape R') (hpos : Lemmas.Bridge.AugPosDistinct R')
+    (hplain : Lemmas.Bridge.AugArgsPlain R') (h0' : Lemmas.IncludeAugIO.NoIOStart R' opts plug')
+    (h0 : Lemmas.IncludeAugIO.NoIOStart R opts plug) (hall : Lemmas.IncludeAugSim.AllConverted R opts plug)
+    (hP : Lemmas.IncludeAugSim.PendRel s R R' opts plug plug')
+    (hfuel : Lemmas.IncludeAugOrder.loopFuel R' opts plug' = Lemmas.IncludeAugOrder.loopFuel R opts plug) :
+    IncludeEqInlineAugments s R R' opts plug plug' :=
+  fun hdev hn hclean =>
+    Lemmas.IncludeAugCompose.eq_inline_of_loopsRelated opts plug plug' h hL hpos hplain hdev hn hclean
+      (Lemmas.IncludeAugIO.loopsRelated_of_noIO opts plug plug' h0'
+        (Lemmas.IncludeAugSim.loopsRelatedCore_norpc h opts hL h0' h0 hall hP hfuel hdev hn hclean))
+
+/-- All hypotheses of `include_eq_inline_augments_norpc` hold of `Ex4` (two modules augment, in a chain, a container
+that the split moves into a submodule; every hypothesis kernel-evaluated on the converted sets, no loop is run). -/
+example : IncludeEqInlineAugments Ex4.sp Ex4.R Ex4.R' {} Ex.plug Ex.plug :=
+  include_eq_inline_augments_norpc Ex4.sp Ex4.R Ex4.R' {} Ex.plug Ex.plug Ex4.isSplit (by decide +kernel)
+    (by decide +kernel) Ex4E.argsPlain (by decide +kernel) (by decide +kernel) (by decide +kernel) (by decide +kernel)
+    (by decide +kernel)
+
+
+/-- The conditions on the converted sets (`PendRel` — piece (A) —, `AllConverted`, equal loop fuel) also hold of the D67
+witness pair `Ex3` (kernel-evaluated). -/
+example : Lemmas.IncludeAugSim.PendRel Ex3.sp Ex3.R Ex3.R' {} Ex.plug Ex.plug ∧
+    Lemmas.IncludeAugSim.AllConverted Ex3.R {} Ex.plug ∧
+    Lemmas.IncludeAugOrder.loopFuel Ex3.R' {} Ex.plug = Lemmas.IncludeAugOrder.loopFuel Ex3.R {} Ex.plug := by decide +kernel
 
 end Goyang.Props.C13Include
